@@ -47,6 +47,8 @@ func runC03(c *Ctx) {
 	c.Floors["G"] = 40
 	c.Floors["W"] = 8
 	c.Floors["O"] = 6
+	// a previous-block commit verifies against the previous validator set: the sets keep their roles
+	validatorSetRoles(c)
 
 	P := c.P
 	stPropose := P.Const("consensus/types", "RoundStepPropose")
@@ -276,6 +278,12 @@ func lockRules(c *Ctx) {
 			}
 			c.Check("F", fnName(fn)+"/precommit target is nil or the polka block id of this round", ok, instrPos(in), 1, describeInstr(in))
 		}
+		// the lock round follows every precommit for a block (lock and relock): the unlock rule compares a later polka's
+		// round with it, and a stale lock round lets an older polka release a lock the node has since renewed
+		c.Precedes(fn, "LockedRound = round", func(in ssa.Instruction) bool {
+			st, ok := in.(*ssa.Store)
+			return ok && pathOf(st.Addr) == "&cs.RoundState.LockedRound" && pathOf(st.Val) == "round"
+		}, "non-nil precommit", nonNil)
 		// lock stores
 		c.Guarded(fn, "store Locked*", StoreTo(`^&cs\.RoundState\.Locked`), G("Prevotes(round).TwoThirdsMajority() ok", True(prevMaj+`#1$`)))
 		setLock := func(in ssa.Instruction) bool {
@@ -294,6 +302,15 @@ func lockRules(c *Ctx) {
 		}
 		c.Guarded(fn, "unlock (LockedBlock = nil)", unlock, G("polka is for nil, or for a block other than the locked one",
 			True(`^call:\(\*types\.BlockID\)\.IsZero\(`), False(`^call:\(\*types\.Block\)\.HashesTo\(cs\.RoundState\.LockedBlock, `+prevMaj[1:]+`#0\.Hash\)$`)))
+	}
+
+	// ---- addVote: a step of the vote's round is entered only in that round --------------------------------------------
+	// enterPrecommit/enterPrevoteWait/enterPrecommitWait/enterCommit(height, vote.Round) sign or act for cs.Round; they are
+	// reached with cs.Round == vote.Round, either tested or established by enterNewRound(height, vote.Round) just before
+	if fn := c.Fn("consensus", "ConsensusState", "addVote"); fn != nil {
+		step := CallTo(`^`+csT+`\.(enterPrecommit|enterPrevoteWait|enterPrecommitWait|enterCommit)$`, `\(cs, cs\.RoundState\.Height, vote\.Round\)$`)
+		c.GuardedUnless(fn, "enter a step of the vote's round", step, "enterNewRound(height, vote.Round)", CallTo(`^`+csT+`\.enterNewRound$`, `\(cs, cs\.RoundState\.Height, vote\.Round\)$`),
+			G("cs.Round == vote.Round", Cmp(`^cs\.RoundState\.Round$`, "==", `^vote\.Round$`)))
 	}
 
 	// ---- addVote: unlock branch --------------------------------------------------------------------
